@@ -36,6 +36,10 @@ SEED_LINES = [
     "jobs ; fg ; bg ; fg 99", "unset A ; export ; set -e", "read X <<< abc", "source /nonexistent", "exec", "ulimit -n 5 ; vpa a | vpa b",
     "vpa a;;vpa b", "vpa | | vpa", "&& vpa", "vpa > > f", "vpa 2>&", "vpa <", "vpa ${", "vpa $(", "vpa `", "vpa \"", "vpa '", "vpa \\",
     "vpa {a,{b,c}d}{", "vpa {1..99999999999999999999}", "vpa {1..5..0}", "vpa {a..z..-1}", "A='$A' vpa $A", "A='${B}' B='$A' vpa $A$B",
+    # two features of one command together
+    "vpa '<' < f", "vpa \"<<<\" <<< w", "vpa \\< x < f", "vpa '>' > f", "vpa \"2>&1\" 2>&1", "vpa '|' | vpa '&'", "vpa $(vpa '<' < f)",
+    "vpa {a,b} {c,d} *", "vpa $A{1..2} \"$A\"{x,y}", "alias q='vpa <' ; q f", "vpa 'a' \\| b", "vpa \"a\" \\> b", "vpa '' \\# c",
+    "for x in $A {1..2} ; do vpa $x ; done", "vpa a <<< 'b' < f", "vpa a > f >> g 2> h 2>&1 1>&2",
 ]
 
 
@@ -196,6 +200,7 @@ def runner(rep, tier, seed, replay):
     rs = run_tlc("MCRobust", "MCRobust_sim", simulate=5000 if tier == "quick" else 60000, depth=12, seed=seed, workers=1, coverage=False,
                  on_replay=lambda v: strings.append(("".join(MB.get(ch, ch) for ch in v["s"]), v["complete"], "sim")), keep_replays=False, timeout=3000)
     rep.add_tlc(rs)
+    strings += [(ln, True, "Arith") for ln in SEED_LINES]      # the seed lines of the process layer also go through every stage in-process
     log("[C05] %d enumerated strings (<= %d over 4 alphabets), %d simulated longer ones" % (n_enum, n_full, len(strings) - n_enum))
     wd = os.path.join(WORK, "c05-cwd-%d" % os.getpid())
     os.makedirs(wd, exist_ok=True)
@@ -288,6 +293,7 @@ def runner(rep, tier, seed, replay):
             lines.append(grammar_line(rnd))
         else:
             lines.append(mutate(grammar_line(rnd), rnd))
+    lines += list(SEED_LINES)          # the seed lines themselves, unmutated
     lines = [ln.replace("\n", " ").replace("\r", " ").replace("\x00", "") for ln in lines]
     lines = [ln for ln in lines if not huge_range(ln)]
     jobs, meta = [], []
